@@ -110,6 +110,10 @@ type VerifC19Refresh struct {
 	Q    dns.Question
 	CD   bool
 	Opts []dns.EDNS0 // options on the queued copy of the triggering request
+	// HadECS is PrefetchRequest.RequestHadECS; CutsAfter / ProofsAfter are the sizes
+	// of the shared denial indexes right after this refresh ran.
+	HadECS                 bool
+	CutsAfter, ProofsAfter int
 }
 
 // VerifC19RunPrefetch empties the held queue by running the worker's own
@@ -125,8 +129,10 @@ func VerifC19RunPrefetch(c *Cache) (out []VerifC19Refresh) {
 			if o := r.Request.IsEdns0(); o != nil {
 				it.Opts = append(it.Opts, o.Option...)
 			}
-			out = append(out, it)
+			it.HadECS = r.RequestHadECS
 			c.prefetchQueue.processPrefetch(r)
+			it.CutsAfter, it.ProofsAfter = c.store.NXDomainCutLen(), c.store.DenialProofLen()
+			out = append(out, it)
 		default:
 			return out
 		}
